@@ -75,6 +75,18 @@ def c07_streams(ctx):
         for q in edit_neighbourhood(r, p, ctx.scale(40, 400)):
             d = "xs" if r.random() < 0.15 else "xp"
             gs.append(Group([Case(q, "", "compile", dialect=d)], {"features": set(), "expect": "MODEL", "why": "one edit away from the valid pattern %r" % p}))
+    # flag x: exactly #x9, #xA, #xD, #x20 are removed (outside classes) before the grammar applies; other white-space-like
+    # characters are ordinary pattern characters — inserted where removal would change grammaticality; expectation = model
+    wsl = ["\t", "\n", "\r", " ", "\x0b", "\x0c", "\x85", "\xa0", "\u2028", "\u3000", "\u1680"]
+    for ch in wsl:
+        for q in [ch + "+", "\\" + ch + "d", "\\p{" + ch + "Lu}", "a{" + ch + "2}", "(?" + ch + ":a)", "[a" + ch + "-z]", "a" + ch + "*", "(" + ch + ")\\1", "a|" + ch + "?", "\\" + ch, "[" + ch + "]+", "a{1," + ch + "2}"]:
+            for f in ("x", "", "ix"):
+                gs.append(Group([Case(q, f, "compile")], {"features": set(), "expect": "MODEL", "why": "white-space-like character U+%04X under flags %r" % (ord(ch), f)}))
+    for p in r.sample(seeds, min(len(seeds), ctx.scale(25, 200))):
+        for _ in range(ctx.scale(6, 30)):
+            k = r.randint(0, len(p))
+            q = p[:k] + r.choice(wsl) + p[k:]
+            gs.append(Group([Case(q, "x", "compile")], {"features": set(), "expect": "MODEL", "why": "a white-space-like character inserted into the valid pattern %r under flag x" % p}))
     for i in range(n):
         ast, p, alpha = gen_pattern(ctx, big_bounds=(r.random() < 0.1), maxgroups=r.choice([3, 12]), alphabet=r.choice(["abc", "ab-^", "a]b", "ab\n", "aé\U00010400"]))
         if r.random() < 0.25:
@@ -195,6 +207,31 @@ def c10_streams(ctx):
             cs = [Case(pat, "", "is_match", ch) for ch in chars]
             gs.append(Group(cs, {"features": set(), "kind": "category", "name": name, "chars": chars,
                                  "expect": [e != neg for e in expect]}))
+    # several escapes in ONE pattern — both polarities of one name, the same name twice, two names: each escape denotes its
+    # own set wherever it stands (pairs of a member and a non-member in every order)
+    for name in r.sample(TWO, ctx.scale(10, len(TWO))) + ["L", "N", "Lu"]:
+        members = set(ARMS[name]) if name in ARMS else {name}
+        ins = [reps[c2][0] for c2 in TWO if c2 in members and reps[c2]][:2]
+        outs = [reps[c2][0] for c2 in TWO if c2 not in members and reps[c2]][:2]
+        if not ins or not outs:
+            continue
+        m, o = chr(ins[0]), chr(outs[0])
+        for pat, want in (("^\\p{%s}\\P{%s}$", lambda a, b: a and not b), ("^\\P{%s}\\p{%s}$", lambda a, b: (not a) and b), ("^\\p{%s}\\p{%s}$", lambda a, b: a and b),
+                          ("^[\\P{%s}][\\p{%s}]$", lambda a, b: (not a) and b), ("^\\P{%s}+\\p{%s}+$", lambda a, b: (not a) and b), ("^[^\\p{%s}]\\P{%s}$", lambda a, b: (not a) and not b)):
+            chars = [m + o, o + m, m + m, o + o]
+            isin = {m: True, o: False}
+            cs = [Case(pat % (name, name), "", "is_match", ch) for ch in chars]
+            gs.append(Group(cs, {"features": set(), "kind": "two-escapes", "name": name, "chars": chars, "expect": [bool(want(isin[ch[0]], isin[ch[1]])) for ch in chars]}))
+    for (nm, a, b) in r.sample(blocks_txt(), ctx.scale(8, 60)):
+        key = nm.replace(" ", "").replace("_", "")
+        if not (scalar(a) and scalar(b + 1) and scalar(a + 1)):
+            continue
+        m, o = chr(a), chr(b + 1)
+        for pat, want in (("^\\p{Is%s}\\P{Is%s}$", lambda x, y: x and not y), ("^\\P{Is%s}\\p{Is%s}$", lambda x, y: (not x) and y)):
+            chars = [m + o, o + m, m + m, o + o]
+            isin = {m: True, o: False}
+            cs = [Case(pat % (key, key), "", "is_match", ch) for ch in chars]
+            gs.append(Group(cs, {"features": set(), "kind": "two-escapes", "name": key, "chars": chars, "expect": [bool(want(isin[ch[0]], isin[ch[1]])) for ch in chars]}))
     # \d \w \s \i \c and complements against the definitions
     probe = sorted({o for c2 in TWO for o in reps[c2][:3]} | {9, 10, 13, 32, 0x3A, 0x5F, 0x2D, 0x2E, 0x30, 0xB7, 0x300, 0x203F, 0x37E, 0xF900, 0x2000})
     cat_of = {}
@@ -705,6 +742,17 @@ def c14_streams(ctx):
                     cs.append(Case(pw, "x", api, s, repl))
                     cs.append(Case(bp, "", api, s, repl))
                 gs.append(Group(cs, {"features": {"capture_in_rep"} if "{2,3}" in bp else set(), "input": s, "pw": pw, "pdel": bp}))
+    # an ESCAPED BACKSLASH directly in front of a bracket: the stripper's "escaped" state must end with the second
+    # backslash, otherwise its notion of "inside a class" is off by one from there on
+    for pw, pdel, ins in [(r"[\\] a", r"[\\]a", ["\\a", "\\ a"]), (r"\\ [ ] b", r"\\[ ]b", ["\\ b", "\\b"]), (r"\\[a ] b", r"\\[a ]b", ["\\ab", "\\ b", "\\a b"]),
+                          (r"[a\\] [ b]", r"[a\\][ b]", ["a ", "\\b", "a b"]), (r"\\\[ a", r"\\\[a", ["\\[a", "\\[ a"]), (r"[\\]\n [ ]", r"[\\]\n[ ]", ["\\\n ", "\\ "]),
+                          (r"(\\) [ x] y", r"(\\)[ x]y", ["\\ y", "\\xy", "\\ xy"]), (r"[^\\] a [b ]", r"[^\\]a[b ]", ["xab", "xa ", "x a b"])]:
+        for s in ins:
+            cs = []
+            for api, repl in (("compile", ""), ("is_match", ""), ("replace", "<$0>"), ("tokenize", ""), ("analyze", "")):
+                cs.append(Case(pw, "x", api, s, repl))
+                cs.append(Case(pdel, "", api, s, repl))
+            gs.append(Group(cs, {"features": set(), "input": s, "pw": pw, "pdel": pdel}))
     # other characters are never removed
     for ch in ["\x0c", "\x0b", " ", " ", "　", "\x85"]:
         cs = []
@@ -1059,6 +1107,22 @@ def c18_streams(ctx):
         hist_case = HistCase(script, mode)
         cs = [hist_case] + [x[3] for x in fresh if x[3] is not None]
         gs.append(Group(cs, {"features": set(), "fresh": fresh, "script": script, "mode": mode, "nthreads": nthreads}))
+    # soak: thousands of successful calls on ONE thread (anything that accumulates per thread or per object — counters,
+    # pools, caches with a capacity — shows only after many calls); every call must still answer like a fresh one
+    for (p, f, s, kinds, n) in [("(a|b)(c)", "", "ac bc ac bc", "mr", ctx.scale(2600, 9000)), ("a[bc]x?", "i", "xAbab", "m", ctx.scale(2300, 5000)),
+                                ("(?:ab|c)*c", "", "abcc-cc", "rm", ctx.scale(1500, 5000))]:
+        ops, fresh = [], []
+        for i in range(n):
+            kind = kinds[i % len(kinds)]
+            if kind == "m":
+                ops.append(f"m0:{rxlib.cps(s)}")
+                fresh.append(("call", 0, len(ops) - 1, Case(p, f, "is_match", s)))
+            else:
+                ops.append(f"r0:{rxlib.cps(s)}:{rxlib.cps('<$0>')}")
+                fresh.append(("call", 0, len(ops) - 1, Case(p, f, "replace", s, "<$0>")))
+        script = f"c0:xp:{rxlib.cps(p)}:{rxlib.cps(f)}" + "#" + ";".join(ops)
+        cs = [HistCase(script, "seq")] + [x[3] for x in fresh]
+        gs.append(Group(cs, {"features": set(), "fresh": fresh, "script": script, "mode": "seq", "nthreads": 1}))
     return gs
 
 
